@@ -99,6 +99,7 @@ type corpus struct {
 	step    uint64
 	crosses map[string]bool
 	byI     []int // logical index -> position in docs
+	lite    bool  // huge corpus: only the listed queries, small limits
 	numAgg  bool  // has the numeric field `num` with a dictionary larger than one token block
 }
 
@@ -131,6 +132,10 @@ func genCorpus(shape string, rng *vh.RNG) *corpus {
 		n = 3500
 		uniq = 12
 		c.crosses["tokens"] = true
+	case "lids2m": // > 2^21 documents: LID deltas and chunk end markers need 4-byte varints with bit 21 set / clear
+		n = 2200000
+		c.lite = true
+		c.crosses["ids"], c.crosses["lids"] = true, true
 	case "latedocs": // late / backfilled documents: the sealed fraction gets a MIDs distribution bitmap (Info.IsIntersecting)
 		n = 120
 		c.crosses["dist"] = true
@@ -183,6 +188,21 @@ func genCorpus(shape string, rng *vh.RNG) *corpus {
 			toks = append(toks, "message:"+w2)
 		}
 		extra := ""
+		if shape == "small" {
+			toks = append(toks, "opt:"+[]string{"", "a", "b", "c", "dd"}[i%5]) // a field that contains the empty value
+			if i < 6 {                                                         // a group of documents 60 days older: MID deltas between 2^31 and 2^34 ms inside an ID block
+				mid -= 60 * 24 * 3600 * 1000
+			}
+		}
+		if c.lite {
+			toks = []string{"_all_:"}
+			if i%1000003 == 7 || i == n-5 || i == 20 {
+				toks = append(toks, "rare:x") // postings more than 2^21 LIDs apart
+			}
+			if i%2 == 0 && i > n-3000000 {
+				toks = append(toks, "par:even")
+			}
+		}
 		if shape == "lids64k" {
 			toks = append(toks, "grp:all")
 			if i < 40000 {
@@ -216,6 +236,12 @@ func genCorpus(shape string, rng *vh.RNG) *corpus {
 			u := fmt.Sprintf("u%0*d", uniq-1, (i*7919)%1000000)
 			toks = append(toks, "uid:"+u, fmt.Sprintf("num:%d", 1000000+i))                                      // num: > 16 KiB dictionary of numbers growing with time
 			toks = append(toks, fmt.Sprintf("long:%s%06d", strings.Repeat("commonprefix", 7), (i*7919)%1000000)) // 90-byte tokens, 84-byte common prefix
+			// one field with ~21000 short values followed (in sort order) by 3500 values of 72 bytes: its token blocks of
+			// ~940 values exceed 64 KiB in the long run
+			for j := 0; j < 6; j++ {
+				toks = append(toks, fmt.Sprintf("mix:m%07d", i*6+j))
+			}
+			toks = append(toks, fmt.Sprintf("mix:z%s%06d", strings.Repeat("0123456789", 6)+"01234", i))
 			extra = fmt.Sprintf(`,"uid":"%s"`, u)
 		}
 		if exact > 0 {
@@ -229,6 +255,9 @@ func genCorpus(shape string, rng *vh.RNG) *corpus {
 			rid = uint64(i) + 1
 		}
 		doc := fmt.Sprintf(`{"service":"%s","level":"%s","pod":"%s","size":%d,"message":"%s %s","n":%d%s}`, svc, lvl, pod, size, w1, w2, i, extra)
+		if c.lite {
+			doc = fmt.Sprintf(`{"n":%d}`, i)
+		}
 		if shape == "tinybulks" {
 			switch i % 4 {
 			case 0, 1:
@@ -248,6 +277,12 @@ func genCorpus(shape string, rng *vh.RNG) *corpus {
 		"service:s1", "level:error", "pod:p07", "message:w3", "service:s0 AND level:warn", "service:s2 OR pod:p11",
 		"NOT level:info", "service:s1 AND NOT message:w2", "(service:s0 OR service:s3) AND level:error AND message:w1",
 		"pod:p1*", "pod:*7", "message:w*", "service:nosuch", "level:error AND service:nosuch", "_all_:*", "size:17",
+	}
+	if shape == "small" {
+		c.queries = append(c.queries, "opt:a", "opt:c", "opt:dd", "opt:*", "opt:a OR opt:b")
+	}
+	if c.lite {
+		c.queries = []string{"rare:x", "_all_:*", "par:even", "rare:x AND par:even"}
 	}
 	if shape == "lids64k" {
 		c.queries = append(c.queries, "cnt:a", "cnt:b", "cnt:c", "full:one", "cnt:a AND NOT cnt:b", "cnt:c AND NOT cnt:b", "grp:all", "half:lo", "half:hi", "par:even", "grp:all AND half:hi", "half:lo OR par:even", "grp:all AND NOT par:even")
@@ -293,6 +328,11 @@ func genCorpus(shape string, rng *vh.RNG) *corpus {
 			}
 		}
 		c.queries = append(c.queries, "long:"+strings.Repeat("commonprefix", 7)+"5*", "long:commonprefixcommon*")
+		for k := 0; k < 8; k++ {
+			i := rng.Intn(n)
+			c.queries = append(c.queries, fmt.Sprintf("mix:z%s%06d", strings.Repeat("0123456789", 6)+"01234", i), fmt.Sprintf("mix:m%07d", i*6+k%6))
+		}
+		c.queries = append(c.queries, "mix:z"+strings.Repeat("0123456789", 6)+"0123400*", "mix:m00001*")
 	}
 	if exact > 0 {
 		for k := 0; k < 8; k++ {
@@ -327,6 +367,20 @@ func mustParse(q string) *parser.ASTNode {
 
 func buildRequests(c *corpus, rng *vh.RNG, quick bool) []request {
 	var reqs []request
+	if c.lite { // a few requests only: every one walks millions of LIDs
+		for qi, q := range c.queries {
+			for _, order := range []seq.DocsOrder{seq.DocsOrderDesc, seq.DocsOrderAsc} {
+				p := processor.SearchParams{AST: mustParse(q), From: c.from, To: c.to, Limit: 5, WithTotal: qi != 1, Order: order}
+				reqs = append(reqs, request{kind: "search", desc: fmt.Sprintf("search q=%q order=%d limit=5 total=%v (2.2M documents)", q, order, p.WithTotal), params: p})
+			}
+		}
+		var ids []seq.ID
+		for _, i := range []int{0, 20, len(c.docs) - 5, len(c.docs) / 2, 2097152, 2097153} {
+			ids = append(ids, c.docs[c.byI[i]].id)
+		}
+		reqs = append(reqs, request{kind: "fetch", desc: "fetch 6 ids (2.2M documents)", ids: ids})
+		return reqs
+	}
 	mid := c.from + (c.to-c.from)/2
 	windows := [][2]seq.MID{{0, seq.MID(^uint64(0) >> 1)}, {c.from, c.to}, {c.from + seq.MID(c.step)*3, mid}, {mid, mid + seq.MID(c.step)}, {c.to + 10, c.to + 20}}
 	for qi, q := range c.queries {
@@ -694,6 +748,9 @@ func runSysCaseInProcess(c sysCase, dir string) *sysResult {
 	batch := 700
 	if c.Shape == "tinybulks" {
 		batch = 1
+	}
+	if cor.lite {
+		batch = 20000
 	}
 	var ierr error
 	if c.Shape == "tinybulks" && c.CacheKB%2 == 1 {
@@ -1321,6 +1378,7 @@ func runSystemOracle(o vh.Opts, rng *vh.RNG, rep *vh.Report, tmp string) {
 		cases = append(cases, sysCase{Shape: "small", Seed: int64(rng.U64() >> 2), SkipSort: i%2 == 1, Zstd: zs[i%4], DocBlock: []int{128, 1024, 0}[i%3], CacheKB: []int{1, 4, 64}[i%3], OnlyReq: -1})
 	}
 	cases = append(cases, sysCase{Shape: "ids2", Seed: int64(rng.U64() >> 2), SkipSort: false, Zstd: 1, DocBlock: 4096, CacheKB: 8, OnlyReq: -1})
+	cases = append(cases, sysCase{Shape: "lids2m", Seed: int64(rng.U64() >> 2), SkipSort: true, Zstd: -5, DocBlock: 0, CacheKB: 64, OnlyReq: -1})
 	if o.Thorough() {
 		for i, sh := range []string{"latedocs", "latedocs", "docs4094", "docs4095", "docs4096", "docs4097", "docs8190", "docs12287", "ids-exact", "ids-exact1", "bigdict", "exactdict", "lids64k", "ids2", "bigdict", "manyfields", "manyfields", "hugedict", "tinybulks", "tinybulks", "tinybulks"} {
 			cases = append(cases, sysCase{Shape: sh, Seed: int64(rng.U64() >> 2), SkipSort: i%2 == 0, Zstd: zs[i%4], DocBlock: []int{2048, 0, 512}[i%3], CacheKB: []int{4, 16, 1}[i%3], OnlyReq: -1})
